@@ -377,6 +377,13 @@ def guards():
     g("diagonal offset", lambda ns, x: ns.diagonal(x, 1), (3, 3))
     g("diagonal default axes 3d", lambda ns, x: ns.diagonal(x), (2, 2, 3))
     g("diagonal axis1=1,axis2=2", lambda ns, x: ns.diagonal(x, 0, 1, 2), (2, 3, 3))
+    for off_ in (1, -1, 2):
+        for a1_, a2_ in ((-2, -1), (-1, -2), (1, 0), (0, -1)):
+            g(f"diagonal offset={off_} axes=({a1_},{a2_})", (lambda o_, p_, q_: lambda ns, x: ns.diagonal(x, o_, p_, q_))(off_, a1_, a2_), (3, 4))
+            g(f"diagonal offset={off_} axes=({a1_},{a2_}) kw", (lambda o_, p_, q_: lambda ns, x: ns.diagonal(x, offset=o_, axis1=p_, axis2=q_))(off_, a1_, a2_), (2, 3, 3))
+    g("diagonal axes=(-2,-1) offset 0", lambda ns, x: ns.diagonal(x, 0, -2, -1), (3, 4))
+    g("trace offset axes", lambda ns, x: ns.trace(x, 1, 1, 0), (3, 3))
+    g("trace axes 3d", lambda ns, x: ns.trace(x, 0, 1, 2), (2, 3, 3))
     g("norm matrix ord=1", lambda ns, x: ns.linalg.norm(x, 1), (3, 3))
     g("norm matrix ord=2", lambda ns, x: ns.linalg.norm(x, 2), (3, 3))
     g("norm matrix ord=inf", lambda ns, x: ns.linalg.norm(x, onp.inf), (3, 3))
